@@ -86,6 +86,10 @@ def cases(tier, seed):
             out.append({"k": "namesrow", "g": g, "r": r, "i": i})
         out.append({"k": "shapes", "g": g, "r": r})
         out.append({"k": "numeric", "g": g, "r": r})
+    if tier == "thorough":
+        from .C18 import CPU_CONFIGS
+        for name in CPU_CONFIGS:
+            out.append({"k": "dispatch", "cfg": name, "g": True, "r": False})
     return out
 
 
@@ -138,8 +142,31 @@ def check_ops(R, pa, pb, S, what, tags, sub=None, spellings=("operator",)):
     return
 
 
+def run_dispatch(case, R):
+    """the equal-degree-heavy family and a packed universe again under a reduced CPU dispatch of numpy's sort
+    kernels (separate process, NPY_DISABLE_CPU_FEATURES)"""
+    import json
+    import os
+    import subprocess
+    import sys
+    from .C18 import CPU_CONFIGS
+    env = dict(os.environ, NPY_DISABLE_CPU_FEATURES=CPU_CONFIGS[case["cfg"]], VERIF_REPO=tree.REPO)
+    proc = subprocess.run([sys.executable, "-m", "mc.props.C07"], env=env, capture_output=True, text=True,
+                          cwd=os.path.dirname(os.path.dirname(os.path.dirname(os.path.abspath(__file__)))), timeout=1500)
+    if proc.returncode != 0:
+        raise RuntimeError("dispatch subprocess failed: " + proc.stderr[-500:])
+    res = json.loads(proc.stdout.strip().splitlines()[-1])
+    R.tr(res["n"])
+    R.state(("dispatch", case["cfg"]))
+    R.stat("dispatch_transitions:" + case["cfg"], res["n"])
+    for f in res["fails"][:20]:
+        R.fail(f["op"], f["kind"], f"[cpu dispatch {case['cfg']}] {f['detail']}", tags=f["tags"] + ["dispatch=" + case["cfg"]])
+
+
 def run_case(case, R):
     k = case["k"]
+    if k == "dispatch":
+        return run_dispatch(case, R)
     g, r = case["g"], case["r"]
     tags = [f"graded={g}", f"reverse={r}"]
     with numpoly.global_options(sort_graded=g, sort_reverse=r):
@@ -258,3 +285,17 @@ def run_case(case, R):
 def post(agg, tier, seed, cov):
     cov["pairs_decided"] = agg["stats"].get("pairs", 0)
     return []
+
+
+if __name__ == "__main__":
+    import json
+    from ..run import Recorder
+    total, fails = 0, []
+    for g, r in CONFIGS:
+        for case in ({"k": "family", "g": g, "r": r, "deg": 4}, {"k": "family", "g": g, "r": r, "deg": 5},
+                     {"k": "packed", "u": "A3", "g": g, "r": r, "i0": 0, "i1": 64, "tier": "quick"}):
+            R = Recorder(case)
+            run_case(case, R)
+            total += R.transitions
+            fails += [{"op": f["op"], "kind": f["kind"], "detail": f["detail"], "tags": f["tags"]} for f in R.fails]
+    print(json.dumps({"n": total, "fails": fails[:50]}))
